@@ -26,3 +26,6 @@ def run(ctx, R):
     # obligations of rules that belong to C05 were filtered by `rules=`; drop class-level extras
     for k in [k for k in R.obs if k[0] not in RULES]:
         del R.obs[k]
+
+
+META['level'] += ' EMIT-BALANCE (all downstream holds retained before the first delivery) is also part of this check.'
